@@ -708,18 +708,18 @@ def _history_world(kind, values_index):
         taxa = treemodels.make_taxa(names, [0.0] * 4)
         tm = UnRootedTreeModel("t", parse_tree(taxa, {"newick": treemodels.newick_of(tree, names)}), taxa,
                                Parameter("bl", torch.tensor(vals[values_index], dtype=torch.float64)))
-        p = tm._branch_lengths
+        p = treemodels.tree_parameter(tm)
         cm = None
     elif kind == "time":
         vals = [[1.5, 2.5, 3.0], [1.2, 2.2, 4.0], [1.8, 2.1, 2.6], [1.1, 3.0, 3.5], [1.6, 2.05, 5.0]]
         tm, _ = treemodels.build_timetree(tree, names, dates, torch.tensor(vals[values_index], dtype=torch.float64))
-        p = tm._internal_heights
+        p = treemodels.tree_parameter(tm)
         cm = StrictClockModel("clock", Parameter("rate", torch.tensor([0.3], dtype=torch.float64)), tm)
     else:
         vals = [[0.5, 0.25, 3.0], [0.3, 0.6, 4.0], [0.8, 0.1, 2.5], [0.45, 0.55, 5.0], [0.2, 0.9, 3.5]]
         tm, _ = treemodels.build_reparam(tree, names, dates, torch.tensor(vals[values_index], dtype=torch.float64), "ratios")
         taxa = treemodels.make_taxa(names, dates)
-        p = tm._internal_heights
+        p = treemodels.tree_parameter(tm)
         cm = StrictClockModel("clock", Parameter("rate", torch.tensor([0.3], dtype=torch.float64)), tm)
     taxa2 = treemodels.make_taxa(names, [0.0] * 4 if kind == "unrooted" else dates)
     aln = Alignment("a", [Sequence(n, s_) for n, s_ in zip(names, seqs)], taxa2, NucleotideDataType(None))
